@@ -18,5 +18,17 @@ for ID in "$@"; do
   rc=$?
   echo "MUTANT $(basename $PATCH) check=$ID exit=$rc $(grep -c '^VIOLATION' $W/$ID.log) violation line(s); first: $(grep -m1 'bucket=' $W/$ID.log | cut -c1-220)"
   [ -n "${VERBOSE:-}" ] && cat "$W/$ID.log"
+  if [ -n "${SAVE_CORPUS:-}" ]; then
+    n=0
+    for rp in "$W"/out/replays/$ID/*.json; do
+      [ -f "$rp" ] || continue
+      [ $n -ge 1 ] && break
+      if /venv/bin/python /verif/check.py $ID --replay "$rp" >/dev/null 2>&1; then
+        mkdir -p /verif/corpus/$ID
+        cp "$rp" /verif/corpus/$ID/$(basename $PATCH .diff)-$n.json
+        n=$((n+1))
+      fi
+    done
+  fi
 done
 exit 0
